@@ -18,6 +18,10 @@ def jobs(tier, seed):
             J.append({"id": f"C04/G/source-semantics[{tid};{cfg}]" + ("/bounds-only" if light else ""), "fn": "vverif.contracts.source_sem:job_src", "args": ("c04." + tid, src, cfg),
                       "kwargs": {"light": light}, "functions": S.FUNCS + FUNCS, "engine": "GenVC"})
     # function-level kernels shared with C14: MemoryLocation.may_overlap / completely_contains soundness is proved there
+    from vverif.contracts import genvc_kernels as GK
+
+    for loc in ("memory", "calldata"):
+        J.append({"id": f"C04/G/core.get_element_ptr[{loc}]", "fn": "vverif.contracts.genvc_kernels:job_element_ptr", "args": (loc,), "functions": GK.FUNCS_PTR, "engine": "GenVC"})
     return J
 
 
@@ -35,6 +39,10 @@ FUNCS = {
 
 def replay(o):
     k = (o.get("replay") or {}).get("kind")
+    from vverif.contracts import genvc_kernels as GK
+
+    if k in GK.REPLAY:
+        return GK.REPLAY[k](o)
     if k in S.REPLAY:
         return S.REPLAY[k](o)
     return {"reproduced": None, "detail": "no native replay"}
